@@ -608,9 +608,20 @@ pub const fn wrapping_sqrt_vartime(&self) -> (ret__: Self)
 //@@ fn src/uint/sqrt.rs | impl<const LIMBS: usize> Uint<LIMBS> | checked_sqrt | body | props C20 C11
 impl<const LIMBS: usize> Uint<LIMBS> {
 pub fn checked_sqrt(&self) -> (ret__: CtOption<Self>)
+//@+
+    requires 1 <= LIMBS < 0x400_0000
+    ensures is_isqrt(self.v(), ret__.value.v()), ret__.is_some.wf(),
+        ret__.is_some.t() == (ret__.value.v() * ret__.value.v() == self.v())
+//@-
 {
         let r = self.sqrt();
         let s = r.wrapping_mul(&r);
+//@+
+    proof {
+        lemma_val_bound(self.limbs@, LIMBS as nat);
+        lemma_small_mod((r.v() * r.v()) as nat, bp(LIMBS as nat) as nat);
+    }
+//@-
         CtOption::new(r, ConstantTimeEq::ct_eq(self, &s))
     }
 }
@@ -618,9 +629,20 @@ pub fn checked_sqrt(&self) -> (ret__: CtOption<Self>)
 //@@ fn src/uint/sqrt.rs | impl<const LIMBS: usize> Uint<LIMBS> | checked_sqrt_vartime | body | props C20 C11 C15
 impl<const LIMBS: usize> Uint<LIMBS> {
 pub fn checked_sqrt_vartime(&self) -> (ret__: CtOption<Self>)
+//@+
+    requires 1 <= LIMBS < 0x400_0000
+    ensures is_isqrt(self.v(), ret__.value.v()), ret__.is_some.wf(),
+        ret__.is_some.t() == (ret__.value.v() * ret__.value.v() == self.v())
+//@-
 {
         let r = self.sqrt_vartime();
         let s = r.wrapping_mul(&r);
+//@+
+    proof {
+        lemma_val_bound(self.limbs@, LIMBS as nat);
+        lemma_small_mod((r.v() * r.v()) as nat, bp(LIMBS as nat) as nat);
+    }
+//@-
         CtOption::new(r, ConstantTimeEq::ct_eq(self, &s))
     }
 }
